@@ -1,6 +1,6 @@
 SPECIFICATION Spec
 CONSTANTS
- Cases <- DihSmall
+ Cases <- DihSmallTbl
  TISet <- TI_quick
  DefSet <- Def_both
  MissSet <- Miss_both
